@@ -1,3 +1,4 @@
+from common import guarded
 """C14  Min and Max return the exact extreme of everything seen, in any order.  Engine K (+VL)."""
 from kani_engine import KaniJob, Harness
 import vl
@@ -35,8 +36,8 @@ def run(tier, seed):
         Harness("min_rel_semilattice", "C14.lemma.min_rel.assoc_comm_idem_unit", "contract relation min_rel (no crate code)"),
         Harness("max_rel_semilattice", "C14.lemma.max_rel.assoc_comm_idem_unit", "contract relation max_rel (no crate code)"),
     )
-    obs = job.run()
-    obs += vl.run_lemmas("C14", ["semilattice"])
+    obs = guarded("C14.engine.job.run@L38", lambda: job.run())
+    obs += guarded("C14.engine.vl.run_lemmas@L39", lambda: vl.run_lemmas("C14", ["semilattice"]))
     meta = {
         "level": "proof",
         "checker_cmd": "cargo kani --no-default-features --features std -Z function-contracts -Z stubbing "
